@@ -431,10 +431,15 @@ def run_cross(ctx, case):
             # the class of a recovery failure names whether the RETURNED ranks over-estimate an exact rank (then the intersection matrices
             # of that bond are singular and the solve is a minimum-norm choice: the recorded, seed-dependent known finding) or not
             over = any(a > b for a, b in zip(Rs[1:-1], r_true))
+            # … or the ADAPTIVE run stopped BELOW an exact rank because the error on its random validation sample was already below eps (on a
+            # small grid a skeleton of rank r-1 is exact on all but a few entries, which the sample can miss): the stopping rule, also recorded
+            ve = [float(v) for v in info.get("val_epss", [])]
+            under = mode == "adaptive" and not over and any(a < b for a, b in zip(Rs[1:-1], r_true)) and len(ve) > 0 and ve[-1] < 1e-9
             report("recovery of a representable target", "relative max-norm error %.3g on the whole grid; exact TT ranks %s, result ranks %s, "
-                   "val_eps %s" % (e, r_true, Rs, [float(v) for v in info.get("val_epss", [])][-3:]),
+                   "val_eps %s" % (e, r_true, Rs, ve[-3:]),
                    extra={"predicate": "%s, %s ranks, returned ranks over-estimate an exact rank" % (
-                       tg["src"], "adaptive" if mode == "adaptive" else "fixed")} if over else None)
+                       tg["src"], "adaptive" if mode == "adaptive" else "fixed")} if over else
+                   {"predicate": "%s, adaptive ranks, stopped below an exact rank with validation error below 1e-9" % tg["src"]} if under else None)
         if case.get("forward") and tg["src"] == "tensors":
             ts = tg["kw"]["tensors"]
             r2 = quiet(lambda: safe(lambda: num(tn.cross_forward(info, function=tg["f"], tensors=ts).torch())))
